@@ -413,6 +413,19 @@ func (f *Func) reachTarget(
 	for i, current := range vertexT {
 		currentG := g
 
+		// A path through a function we are in the middle of reaching (the
+		// target included) can never be used: that function is waiting for
+		// this very value. Search without them, so that tie-breaking between
+		// equal-cost paths cannot pick such a path while a usable one exists.
+		if len(state.Reaching) > 0 {
+			currentG = currentG.Copy()
+			for id := range state.Reaching {
+				if rv := currentG.Vertex(id); rv != nil {
+					currentG.Remove(rv)
+				}
+			}
+		}
+
 		// For value vertices, we discount any other values that share the
 		// same name. This lets our shortest paths prefer matching through
 		// same-named arguments.
@@ -439,6 +452,14 @@ func (f *Func) reachTarget(
 		input := paths[i][0]
 		if _, ok := input.(*rootVertex); ok && len(paths[i]) > 1 {
 			input = paths[i][1]
+		}
+
+		// If every path led through a function being reached, there is no
+		// path from the root left and this target is unsatisfied.
+		if _, ok := paths[i][0].(*rootVertex); !ok {
+			if valueable, ok := current.(valueConverter); ok {
+				unsatisfied = append(unsatisfied, valueable.value())
+			}
 		}
 
 		// If the path contains ourself, then this target is unsatisfied.
